@@ -5,6 +5,7 @@ From DV Require Import Base.Prelude Model.NameM Model.TokM Model.RdTextM.
 From DV Require Import Proofs.TokEsc Proofs.TokTxt Proofs.TokWords Proofs.TokHex Proofs.TokShape Proofs.TokGeneric
      Proofs.RdTextAddr Proofs.RdTextBitmap.
 Open Scope Z_scope.
+Set Warnings "-abstract-large-number".
 
 (* ---------- mnemonic-or-number fields: finite sweeps per kind ---------- *)
 Definition enum_ok (k : enum_kind) (v : Z) : bool :=
@@ -22,6 +23,8 @@ Lemma enum_ok_scheme : forallb (enum_ok KScheme) (zrange 256 0) = true.
 Proof. vm_compute. reflexivity. Qed.
 Lemma enum_ok_alg : forallb (enum_ok KAlgMn) (zrange 256 0) = true.
 Proof. vm_compute. reflexivity. Qed.
+Lemma enum_ok_algnum : forallb (enum_ok KAlgNum) (zrange 256 0) = true.
+Proof. vm_compute. reflexivity. Qed.
 
 Theorem enum_facts k v : 0 <= v <= enum_max k ->
   exists w, enum_print k v = Ok w /\ w <> [] /\ forallb safe w = true /\ enum_parse k w = Ok v /\ enum_ctor k v = Ok v.
@@ -36,6 +39,8 @@ Proof.
     - pose proof enum_ok_ctype as G. rewrite forallb_forall in G. apply G. apply zrange_in.
       assert (E : Z.of_nat 65536 = 65536) by (vm_compute; reflexivity). rewrite E. lia.
     - pose proof enum_ok_alg as G. rewrite forallb_forall in G. apply G. apply zrange_in.
+      assert (E : Z.of_nat 256 = 256) by (vm_compute; reflexivity). rewrite E. lia.
+    - pose proof enum_ok_algnum as G. rewrite forallb_forall in G. apply G. apply zrange_in.
       assert (E : Z.of_nat 256 = 256) by (vm_compute; reflexivity). rewrite E. lia. }
   unfold enum_ok in H. destruct (enum_print k v) as [w| |]; try discriminate. exists w.
   apply andb_true_iff in H as [H H3]. apply andb_true_iff in H as [H1 H2].
